@@ -62,6 +62,10 @@ def cases(tier, seed):
             out.append(dict(fam="run", dev=d, B=B, tol=tol, ab=0, maxit=1000))
     for d in ("G1s", "G5"):
         out.append(dict(fam="off", dev=d, B=0.6))
+    # field sweeps: each run is seeded with the converged solution of the previous field; every solution the caller still
+    # holds must stay self-consistent (its stored potential reproduces the sum from its stored currents)
+    for d, tol in itertools.product(("G1s", "G5"), (1e-2, 1e-3) if quick else tols):
+        out.append(dict(fam="sweep", dev=d, tol=tol, fields=[0.2, 0.5, 0.35]))
     return out
 
 
@@ -317,5 +321,53 @@ def run_off(case):
     return res
 
 
+def run_sweep(case):
+    import tdgl
+
+    from .. import drivers
+
+    res = CaseResult()
+    res.key = case_key(case)
+    dev = _device(case["dev"])
+    si = SI(dev)
+    dt = 2.0**-5
+    held = []  # (solution, path, label of its last frame)
+    seed = None
+    for i, B in enumerate(case["fields"]):
+        opts = tdgl.SolverOptions(solve_time=4 * dt, dt_init=dt, dt_max=dt, adaptive=False, save_every=2, output_file=f"sweep{i}.h5",
+                                  include_screening=True, screening_tolerance=case["tol"], progress_interval=10**9)
+        try:
+            sol = tdgl.solve(dev, opts, applied_vector_potential=B, seed_solution=seed)
+        except RuntimeError as exc:
+            if "converge" not in str(exc):
+                raise
+            res.count("raised_steps")
+            break
+        held.append((sol, f"sweep{i}.h5"))
+        seed = sol
+        # every solution obtained so far, as the caller sees it in memory and as it is on disk
+        for j, (s_j, path) in enumerate(held):
+            frames, _ = drivers.read_frames(path)
+            last = frames[-1]
+            mem_A = np.asarray(s_j.tdgl_data.induced_vector_potential)
+            res.transitions += 1
+            res.states.add(f"{res.key}:{i}:{j}")
+            if not np.array_equal(mem_A, np.asarray(last["data"]["induced_vector_potential"])):
+                res.violate("held-solution-changed-by-a-later-run", what="induced_vector_potential", detail={"case": case, "held": j, "after_run": i})
+                continue
+            F = np.asarray(s_j.tdgl_data.supercurrent) + np.asarray(s_j.tdgl_data.normal_current)
+            A_ref = si.A_of(F)
+            den = np.maximum(np.linalg.norm(mem_A, axis=1), 1e-20)
+            mism = float((np.linalg.norm(A_ref - mem_A, axis=1) / den).max())
+            res.residual("stored_mismatch_over_tol", mism / case["tol"])
+            if mism > TOLERANCES["stored_multiple"] * case["tol"]:
+                res.violate("stored-potential-not-self-consistent", detail={"case": case, "held": j, "after_run": i, "mismatch": mism})
+    res.count("converged_steps", 4 * len(held))
+    res.executions = len(held)
+    res.nontrivial = len(held) >= 2
+    res.outcome = "sweep"
+    return res
+
+
 def run_case(case):
-    return {"kernel": run_kernel, "run": run_run, "off": run_off}[case["fam"]](case)
+    return {"kernel": run_kernel, "run": run_run, "off": run_off, "sweep": run_sweep}[case["fam"]](case)
